@@ -261,11 +261,11 @@ theorem runPhase_stored (files : Files) (L : Lay) (ds : DState) (bs : Nat) (hbs 
     (inv : FeedInv L ds.feeder blks R) (n : Nat) (hn : n ≤ R.length) :
     ∃ ds' blks', runPhase files ds (.none bs .ok) n = .ran .ok (R.take n) ds' ∧ FeedInv L ds'.feeder blks' (R.drop n) ∧
       ds'.dec = some (.none bs .ok) ∧ ds'.offset = ds.offset + n ∧ ds'.feeder.numBlocks = ds.feeder.numBlocks ∧
-      ds'.feeder.salvage = ds.feeder.salvage := by
+      ds'.feeder.salvage = ds.feeder.salvage ∧ ds'.folder = ds.folder := by
   have hfuel : (n = 0 ∧ 1 ≤ n / max bs 1 + 2) ∨ n / bs + 2 ≤ n / max bs 1 + 2 := by
     right; rw [Nat.max_eq_left hbs]; exact Nat.le_refl _
   obtain ⟨fd', blks', e, inv', hn', hs'⟩ := noned_stored files L bs hbs (n / max bs 1 + 2) ds.feeder blks R n [] inv hn hfuel
-  refine ⟨{ ds with offset := ds.offset + (R.take n).length, feeder := fd', dec := some (.none bs .ok) }, blks', ?_, inv', rfl, ?_, hn', hs'⟩
+  refine ⟨{ ds with offset := ds.offset + (R.take n).length, feeder := fd', dec := some (.none bs .ok) }, blks', ?_, inv', rfl, ?_, hn', hs', rfl⟩
   · unfold runPhase decompress
     simp only [ne_eq, not_true_eq_false, ↓reduceIte, e, Except.map, List.nil_append]
     rw [if_neg (by decide)]
